@@ -599,6 +599,55 @@ fn stream_use(rep: &mut Report, drv: &mut Driver, rng: &mut Rng, n: usize) -> Re
     Ok(())
 }
 
+/// the same reference DAGs written BACKWARDS: every reference points forward in the document, chains of any
+/// length (z refers to b, b to c, c stands later still) - each element must land where its relspec says, not
+/// against the as-written form of an element that is itself still waiting
+fn stream_forward(rep: &mut Report, rng: &mut Rng, n: usize) {
+    let mut orc = Stream::new(
+        "oracle/forward-chains",
+        "oracle",
+        "the documents of doc/relspec with `^` spelled as the id it denotes and the element order reversed, so that every reference is a forward reference and chains of forward references of length up to 6 arise: each output element (matched by id) must have the box the independent reference computes (tolerance 0.0011); non-trivial = every case",
+    );
+    let cfg = default_cfg();
+    for _ in 0..n {
+        let k = 3 + rng.below(5);
+        let mut nodes = gen_doc(rng, k);
+        for i in 1..nodes.len() {
+            let prev = format!("#e{}", i - 1);
+            for (_, v) in nodes[i].el.attrs.iter_mut() {
+                if v.starts_with('^') { *v = format!("{prev}{}", &v[1..]); }
+            }
+        }
+        nodes.reverse();
+        let doc = doc_xml(&nodes);
+        orc.case(&doc, true, || json!({"document": doc}));
+        match transform(&doc, &cfg) {
+            Err(p) => rep.violation(Violation { kind: "oracle", stream: orc.name.clone(), signature: "C09:panic".into(), what: format!("panic: {p}"), replay: json!({"input": doc}), confirmed_on_impl: true }),
+            Ok(Err(e)) => rep.violation(Violation { kind: "oracle", stream: orc.name.clone(), signature: format!("C09:error:{}", err_kind(&e)), what: format!("transform failed on a valid reference document (all references forward): {e}"), replay: json!({"input": doc}), confirmed_on_impl: true }),
+            Ok(Ok(out)) => {
+                let outs = match parse_elements(&out) { Ok(o) => o, Err(e) => { rep.violation(Violation { kind: "oracle", stream: orc.name.clone(), signature: "C09:unparseable".into(), what: e, replay: json!({"input": doc}), confirmed_on_impl: true }); continue; } };
+                let mut good = true;
+                for nd in nodes.iter().filter(|n| n.el.name != "box" && n.el.name != "point") {
+                    let id = nd.el.get("id").unwrap_or("");
+                    let got = outs.iter().find(|o| o.el.get("id") == Some(id)).and_then(|o| out_box(&o.el));
+                    match got {
+                        Some(b) if close(&b, &nd.expect) => {}
+                        other => {
+                            good = false;
+                            rep.violation(Violation { kind: "oracle", stream: orc.name.clone(), signature: format!("C09:forward:{}", nd.form.split(['=', ':']).next().unwrap_or("")),
+                                what: format!("{} placed at {:?}, the relspec ({}) says {:?}", nd.el.xml(), other, nd.form, nd.expect),
+                                replay: json!({"input": doc, "element": nd.el.xml(), "expect_by_id": expect_json(&nodes)}), confirmed_on_impl: true });
+                            break;
+                        }
+                    }
+                }
+                if good { orc.exact += 1; }
+            }
+        }
+    }
+    rep.streams.push(orc);
+}
+
 pub fn run(rep: &mut Report, tier: &str, seed: u64) -> Result<(), String> {
     let mut rng = Rng::new(seed);
     let mut drv = Driver::start()?;
@@ -606,5 +655,6 @@ pub fn run(rep: &mut Report, tier: &str, seed: u64) -> Result<(), String> {
     corpus(rep);
     stream_docs(rep, &mut drv, &mut rng.fork(), n)?;
     stream_use(rep, &mut drv, &mut rng.fork(), n / 2)?;
+    stream_forward(rep, &mut rng.fork(), n / 2);
     Ok(())
 }
